@@ -151,7 +151,11 @@ def make_sysfiles(rundir):
     hn = socket.gethostname().encode()
     hosts = (b"127.0.0.1 localhost\n# " + hn + b".commented.example\n" + b"10.0.0.1 " + b" ".join(b"alias%03d.example.net" % i for i in range(90)) + b"\n" +
              b"::1 ip6-localhost\n10.9.8.7\t" + hn.upper() + b".Corp.Example.ORG " + hn + b"\n10.9.8.8 other\t# trailing comment without newline")
-    for name, content in (("passwd", passwd), ("group", group), ("hosts", hosts)):
+    # name service switch: the account databases are plain files only -- an unreadable file is then an ERROR of the lookup, not something the
+    # next service quietly papers over
+    nss = b"".join((b"passwd: files\n" if l.startswith(b"passwd:") else b"group: files\n" if l.startswith(b"group:") else l + b"\n")
+                   for l in open("/etc/nsswitch.conf", "rb").read().split(b"\n") if l.strip())
+    for name, content in (("passwd", passwd), ("group", group), ("hosts", hosts), ("nsswitch.conf", nss)):
         with open(os.path.join(d, name), "wb") as f:
             f.write(content)
         os.chmod(os.path.join(d, name), 0o644)
